@@ -287,7 +287,7 @@ def main():
         col.dump(a.out)
         return
     quick = a.tier == "quick"
-    depth = 2 if quick else 4
+    depth = 2 if quick else 3
     hosts = HOSTS if quick else HOSTS_THOROUGH
     nrand = 1500 if quick else 40000
     jobs = [(a.tier, a.seed, s, ui, h, depth) for h in hosts for ui in USERINFOS for s in SCHEMES]
